@@ -10,7 +10,7 @@
     implementation by the harness) and "every delta survives JSON serialisation" (deltas are [json] terms
     by construction; the harness checks Marshal/Unmarshal on every generated delta). *)
 From Coq Require Import List ZArith String.
-From Thunder Require Import Lib.Json DiffMerge.Model DiffMerge.ProofsCompress DiffMerge.ProofsMergeGo
+From Thunder Require Import Lib.Json Lib.JsonNorm DiffMerge.Model DiffMerge.ProofsCompress DiffMerge.ProofsMergeGo
      DiffMerge.ProofsMain DiffMerge.ProofsSelf DiffMerge.ProofsJS.
 Import ListNotations.
 Open Scope string_scope.
@@ -45,6 +45,12 @@ Print Assumptions diff_self.
 Theorem reorder_indices_roundtrip : forall idx : list (option nat), uncompress (compress idx) = Some idx.
 Proof. exact uncompress_compress. Qed.
 Print Assumptions reorder_indices_roundtrip.
+
+(** What [jeq] means: values with unique object keys that are [jeq] have the same canonical form (keys
+    sorted) - the comparison the correspondence check and the oracle use on the implementation's outputs. *)
+Theorem jeq_canonical : forall a b, jeq a b -> keys_ok a = true -> keys_ok b = true -> norm a = norm b.
+Proof. exact jeq_norm. Qed.
+Print Assumptions jeq_canonical.
 
 (** Non-vacuity: a well-formed pair with keyed objects, a reorder, an insertion, a removed field and a new
     complex field; its delta uses the "$" encoding, and both merges reproduce the new value. *)
